@@ -5,7 +5,7 @@ import random
 
 KW = {"select", "from", "join", "on", "where", "in", "union", "all", "as", "with", "insert", "into", "create", "table", "view",
       "update", "set", "merge", "using", "when", "matched", "then", "delete", "having", "group", "by", "and", "not", "exists", "inner",
-      "left", "cross", "or"}
+      "left", "cross", "or", "all"}
 
 
 class Opts:
@@ -205,10 +205,23 @@ class R:
             # both sides of one comparison are subqueries
             out += [self.kw("where"), "("] + b["where"] + [")", ">", "("] + b["where2"] + [")"]
         elif b["where"]:
-            if self.o.where_op == "in_with_bracket":
+            wop = self.o.where_op
+            depth, top_comma = 0, False
+            for t in b["where"]:
+                depth += (t == "(") - (t == ")")
+                top_comma = top_comma or (t == "," and depth == 0)
+            if wop in ("all", "func") and top_comma:
+                wop = "nested_bool"       # behind ALL / in a function call the parser reads a top-level comma as an argument separator
+            if wop == "all":
+                out += [self.kw("where"), self.ident("c1"), ">", self.kw("all"), "("] + b["where"] + [")"]
+            elif wop == "nested_bool":
+                out += [self.kw("where"), self.ident("c1"), "=", "1", self.kw("and"), "(", self.ident("c1"), self.kw("in"), "("] + b["where"] + [")", self.kw("or"), self.ident("c1"), "=", "2", ")"]
+            elif wop == "func":
+                out += [self.kw("where"), "coalesce", "(", "("] + b["where"] + [")", ",", "0", ")", ">", self.ident("c1")]
+            elif wop == "in_with_bracket":
                 # the IN subquery next to another bracket in the same condition
                 out += [self.kw("where"), "(", self.ident("c1"), "=", "1", self.kw("or"), self.ident("c1"), "=", "2", ")", self.kw("and"), self.ident("c1"), self.kw("in"), "("] + b["where"] + [")"]
-            elif self.o.where_op == "exists":
+            elif wop == "exists":
                 out += [self.kw("where"), self.kw("exists"), "("] + b["where"] + [")"]
             else:
                 out += [self.kw("where"), self.ident("c1"), self.kw("in"), "("] + b["where"] + [")"]
